@@ -90,7 +90,8 @@ def run(tier: str, seed: int) -> int:
                     got = np.asarray(ex.derivative(jnp.asarray(u)[None], L, order=m))
                     for d in range(D):
                         want = a * (omega * kap[d]) ** m * np.cos(theta + m * np.pi / 2)
-                        if maxabs(got[d] - want) > 1e-9 * (1 + maxabs(want)) * (1 + abs(omega * max(map(abs, kap))) ** m):
+                        # + the rounding noise of the transform (eps * a on every mode) amplified by the symbol of the highest resolved mode
+                        if maxabs(got[d] - want) > 1e-9 * (1 + maxabs(want)) * (1 + abs(omega * max(map(abs, kap))) ** m) + 1e-12 * a * (omega * (N // 2)) ** m:
                             run_.violation({"kind": "derivative-analytic", "D": D, "N": N, "order": m}, {"kappa": kap, "axis": d, "L": L})
                 if nsamp < 3:
                     run_.sample({"D": D, "N": N, "L": L, "kappa": kap, "a": a, "phi": phi, "orders": [1, 2, 3]})
